@@ -36,6 +36,7 @@ class XYCostFunction_Chi2(CostFunction_Chi2):
         """
         self._DATA_NAME = "y_data"
         self._MODEL_NAME = "y_model"
+        self._pointwise_version_kwargs = dict(axes_to_use=axes_to_use)
         if axes_to_use.lower() == "y":
             self._COV_MAT_CHOLESKY_NAME = "y_total_cov_mat_cholesky"
             self._COV_MAT_QR_NAME = "y_total_cov_mat_qr"
@@ -97,6 +98,7 @@ class XYCostFunction_GaussApproximation(CostFunction_GaussApproximation):
         """
         self._DATA_NAME = "y_data"
         self._MODEL_NAME = "y_model"
+        self._pointwise_version_kwargs = dict(axes_to_use=axes_to_use)
         if axes_to_use.lower() == "y":
             self._COV_MAT_NAME = "y_total_cov_mat"
             self._ERROR_NAME = "y_total_error"
